@@ -152,6 +152,7 @@ def main():
     ap.add_argument("--jobs", type=int, default=8)
     ap.add_argument("--only", default=None)
     ap.add_argument("--out", default=None)
+    ap.add_argument("--all-props", action="store_true", help="also run the cross-cutting benign variants against all 20 checks")
     args = ap.parse_args()
     props = [p.upper() for p in args.props] or ["C%02d" % i for i in range(1, 21)]
     results = []
@@ -159,6 +160,23 @@ def main():
     if not capture_argv(args.repo):
         print("selfcheck: cannot capture rustc command line (tree does not compile?)")
         return 2
+    if args.all_props:
+        # cross-cutting benign variants: every check must stay silent
+        gm = importlib.import_module("selfcheck.glob").MUTANTS
+        allp = ["C%02d" % i for i in range(1, 21)]
+        bases = {p_: baseline_keys(p_, args.repo) for p_ in allp}
+        for m in gm:
+            newv = []
+            status = "silent"
+            for p_ in allp:
+                r = evaluate(p_, dict(m), args.repo, bases[p_])
+                if r["status"] not in ("silent",):
+                    status = r["status"]
+                    newv.append((p_, r.get("new_violations", r.get("detail"))))
+            if status != "silent":
+                bad += 1
+            results.append({"id": m["id"], "kind": "benign", "status": status, "detail": newv})
+            print("ALL  %-38s %-8s %-20s %s" % (m["id"], "benign", status, str(newv)[:300]))
     for prop in props:
         try:
             ms = mutants_for(prop, with_seeded=True)
